@@ -365,3 +365,97 @@ func fixRunes(s []rune, a Alphabet) []rune {
 	}
 	return s
 }
+
+// NonGreedyLexer draws a specification for the non-greedy property: one or
+// two token rules of the form  P B*? T  /  P B+? T  (P: literal or class
+// sequence; B: class, '.', or an alternation of classes — one character per
+// repetition; T: literal of 1-3 characters, possibly self-overlapping, whose
+// characters B may match) plus greedy rules whose first characters are
+// disjoint from P's.
+func NonGreedyLexer(r *rng.R) (*lexspec.Spec, Alphabet) {
+	// tiny alphabet so that terminators are frequent
+	pool := []rune{'a', 'b', 'c', '*', '/', '"', 'x', 'é', 0x4E16}
+	perm := r.Perm(len(pool))
+	n := r.Range(2, 3)
+	var body Alphabet
+	for i := 0; i < n; i++ {
+		body = append(body, pool[perm[i]])
+	}
+	opener := []rune{'<', '{', '#', '@'}
+	s := &lexspec.Spec{}
+	alpha := append(Alphabet{}, body...)
+	nNG := r.Range(1, 2)
+	for k := 0; k < nNG; k++ {
+		open := opener[k]
+		alpha = append(alpha, open)
+		var p lexspec.Rx = lexspec.Lit{S: []rune{open}}
+		if r.Chance(1, 3) {
+			p = lexspec.Cat{Parts: []lexspec.Rx{lexspec.Lit{S: []rune{open}}, lexspec.Class{Items: []lexspec.Item{{Lo: body[0], Hi: body[0]}}}}}
+		}
+		var b lexspec.Rx
+		switch r.Intn(4) {
+		case 0:
+			b = lexspec.Any{}
+		case 1:
+			its := []lexspec.Item{}
+			for _, ch := range body {
+				if r.Chance(3, 4) {
+					its = append(its, lexspec.Item{Lo: ch, Hi: ch})
+				}
+			}
+			if len(its) == 0 {
+				its = append(its, lexspec.Item{Lo: body[0], Hi: body[0]})
+			}
+			b = lexspec.Class{Items: its}
+		case 2:
+			b = lexspec.Alt{Alts: []lexspec.Rx{
+				lexspec.Class{Items: []lexspec.Item{{Lo: body[0], Hi: body[0]}}},
+				lexspec.Class{Items: []lexspec.Item{{Lo: body[1], Hi: body[1]}}, Neg: r.Chance(1, 3)},
+			}}
+		default:
+			b = lexspec.Class{Items: []lexspec.Item{{Lo: '\n', Hi: '\n'}}, Neg: true}
+		}
+		tl := r.Range(1, 3)
+		t := make([]rune, tl)
+		switch r.Intn(3) {
+		case 0: // self-overlapping
+			for i := range t {
+				t[i] = body[i%2]
+			}
+			if r.Chance(1, 2) {
+				for i := range t {
+					t[i] = body[0]
+				}
+			}
+		default:
+			for i := range t {
+				t[i] = body[r.Intn(len(body))]
+			}
+		}
+		op := "*?"
+		if r.Chance(1, 2) {
+			op = "+?"
+		}
+		rule := lexspec.Rule{Kind: lexspec.RToken, Name: fmt.Sprintf("NG%d", k),
+			Rx: lexspec.Cat{Parts: []lexspec.Rx{p, lexspec.Card{X: b, Op: op}, lexspec.Lit{S: t}}}}
+		s.Entries = append(s.Entries, lexspec.Entry{Rule: &rule})
+	}
+	// greedy companions (first characters among the body alphabet, never an opener)
+	id := lexspec.Rule{Kind: lexspec.RToken, Name: "WORD", Rx: lexspec.Card{X: lexspec.Class{Items: []lexspec.Item{{Lo: body[0], Hi: body[0]}, {Lo: body[len(body)-1], Hi: body[len(body)-1]}}}, Op: "+"}}
+	kw := lexspec.Rule{Kind: lexspec.RToken, Name: "KW", Rx: lexspec.Lit{S: []rune{body[0], body[0]}}}
+	ws := lexspec.Rule{Kind: lexspec.RFrag, Rx: lexspec.Card{X: lexspec.Class{Items: []lexspec.Item{{Lo: ' ', Hi: ' '}, {Lo: '\n', Hi: '\n'}}}, Op: "+"}, Actions: []lexspec.Action{{Kind: lexspec.ADiscard}}}
+	alpha = append(alpha, ' ')
+	comp := []lexspec.Rule{kw, id, ws}
+	for _, i := range r.Perm(len(comp)) {
+		if r.Chance(3, 4) {
+			ru := comp[i]
+			// placed before or after the non-greedy rules
+			if r.Chance(1, 2) {
+				s.Entries = append([]lexspec.Entry{{Rule: &ru}}, s.Entries...)
+			} else {
+				s.Entries = append(s.Entries, lexspec.Entry{Rule: &ru})
+			}
+		}
+	}
+	return s, alpha
+}
